@@ -19,6 +19,7 @@ func init() {
 			{"C01.R3", "q", "shared: key gate and hint lookup with the requested key", c01r3},
 			{"C13.R2", "q", "both keys registered before the second fetch", c13r2},
 			{"C13.R3", "q", "GC consults table/hints before dropping", c13r3},
+			{"C13.R3b", "q", "getCollisionGC reports the chunk of the table item", c13r3b},
 			{"C13.R4", "q", "writes refresh the table with the full position", c13r4},
 			{"C13.R5", "q", "table persisted and loaded", c13r5},
 			{"C13.R6", "q", "merge reports same-hash groups", c13r6},
@@ -318,4 +319,36 @@ func c13r8(c *Ctx) {
 			nilDiscipline(c, R, f, callee, 0)
 		}
 	}
+}
+
+func c13r3b(c *Ctx) {
+	const R = "C13.R3b"
+	f := c.fn(R, "store.hintMgr.getCollisionGC")
+	if f == nil {
+		return
+	}
+	info := f.Info()
+	ck := f.Result(1)
+	tb := f.CallsTo("store.CollisionTable.get")
+	if ck == nil || len(tb) == 0 {
+		c.undec(R, f.Key, "table lookup / chunk result not recognised")
+		return
+	}
+	it := f.ResultLhs(tb[0].Expr, 0)
+	ok := false
+	ast.Inspect(f.Decl.Body, func(x ast.Node) bool {
+		if as, isA := x.(*ast.AssignStmt); isA && len(as.Lhs) == 1 && prog.ObjOf(info, as.Lhs[0]) == ck {
+			if prog.MentionsField(info, as.Rhs[0], "store.Position.ChunkID") && it != nil && prog.RootObj(info, as.Rhs[0]) == prog.RootObj(info, it) {
+				ok = true
+			}
+		}
+		return true
+	})
+	// or returned directly
+	for _, rs := range f.CFG().Returns() {
+		if len(rs.Results) == 3 && prog.MentionsField(info, rs.Results[1], "store.Position.ChunkID") {
+			ok = true
+		}
+	}
+	c.check(ok, R, f.Key+": chunk id of a table hit = it.Pos.ChunkID", f.Pos(), "ChunkID = it.Pos.ChunkID", "for a key found in the collision table getCollisionGC no longer reports the item's chunk id (zero value 0 instead): GC compares Position{0, offset} with the scanned position, so the current record of a colliding key in any file but 0 is released as garbage")
 }
